@@ -945,15 +945,22 @@ impl Check for C16 {
             // strided so that the expensive deep cases spread over units
             let mine: Vec<Case> = all.into_iter().enumerate().filter(|(i, _)| i % ne == idx).map(|(_, c)| c).collect();
             judge_cases(&mut r, &mine, false);
-            if let Some(c) = mine.first() {
-                r.sample(json!({"case": c.id}));
+            if let Some(c) = mine.iter().find(|c| !c.deep) {
+                let doc = match &c.doc {
+                    Doc::Text(t) => truncate(t, 300),
+                    Doc::Tree(v) => truncate(&v.to_string(), 300),
+                    Doc::Graph(g) => truncate(&g.js_literal(), 300),
+                    Doc::Cycle(sx) => truncate(sx, 300),
+                };
+                r.sample(json!({"case": c.id, "document": doc, "paths": ["parse+read", "roundtrip", "roundtrip-indent2", "roundtrip-indent-tab", "export", "c-api", "host->json", "host->script-stringify", "host->script-identity", "host->script-read", "literal->host", "literal->stringify", "literal->read"]}));
             }
         } else {
             let k = (idx - ne) as u64;
             let (shard, unit) = if ctx.thorough() { (k / 8, k % 8) } else { (ctx.seed % R_SHARDS, k) };
             let cases = random_cases(shard, unit);
             judge_cases(&mut r, &cases, true);
-            r.sample(json!({"random_shard": shard, "unit": unit, "documents": cases.len()}));
+            let first = cases.first().map(|c| match &c.doc { Doc::Tree(v) => truncate(&v.to_string(), 300), _ => String::new() }).unwrap_or_default();
+            r.sample(json!({"random_shard": shard, "unit": unit, "documents": cases.len(), "first_document": first}));
         }
         r
     }
